@@ -288,14 +288,23 @@ func installFaults(net *fake.Net, faults []Fault, hit *int, hitKinds *[]string) 
 		}
 		mu.Lock()
 		defer mu.Unlock()
-		key := url + "\x00" + reqs[0].Query
-		n := occ[key]
-		occ[key]++
 		nu := occURL[url]
 		occURL[url]++
+		// a call is identified by the query text of ANY of its requests (their order inside a call is scheduling dependent)
+		counted := map[string]bool{}
+		nOf := map[string]int{}
+		for _, rq := range reqs {
+			key := url + "\x00" + rq.Query
+			if !counted[key] {
+				counted[key] = true
+				nOf[rq.Query] = occ[key]
+				occ[key]++
+			}
+		}
 		for _, f := range faults {
+			n, carries := nOf[f.Query]
 			// a fault without query text addresses the n-th call to the service (hand-written cases)
-			if f.URL == url && (f.Query == reqs[0].Query && f.Occurrence == n || f.Query == "" && f.Occurrence == nu) {
+			if f.URL == url && (carries && f.Occurrence == n || f.Query == "" && f.Occurrence == nu) {
 				if fr, ok := applyFault(f, reqs, normal); ok {
 					*hit++
 					*hitKinds = append(*hitKinds, f.Kind)
